@@ -475,6 +475,14 @@ func c20replay2(r *Run, w []string) bool {
 			}
 		}
 		c20anchor(r, refs, unhx(w[2]))
+	case "opt":
+		for _, k := range c20optKinds {
+			if k.name == w[1] {
+				c20opt(r, k, unhx(w[2]))
+			}
+		}
+	case "cfpair":
+		c20cfpair(r, unhx(w[1]), unhx(w[2]))
 	case "colrng":
 		c20colrng(r, unhx(w[1]))
 	case "colw":
